@@ -52,7 +52,7 @@ func (s *spyStore) do(ctx context.Context, op, sid string, arg map[string]any, r
 	d := s.d
 	g := d.arrive("store", map[string]any{"op": op, "check": ctx.Value(checkKey{})})
 	ev := map[string]any{"ev": "store", "n": g.check.n, "c": g.check.id, "f": g.check.f, "store": s.id, "op": op,
-		"sid": d.symSid(sid), "fault": "none", "arg": arg, "lin": 0}
+		"sid": d.symSid(sid), "fault": "none", "arg": arg, "lin": 0, "cmdFaultHit": false}
 	fault := g.dir.Fault
 	if fault == "" {
 		fault = "none"
